@@ -1276,6 +1276,22 @@ class Explorer:
             if ty in ("u8", "u16", "u32", "u64", "usize", "i32", "i64"):
                 return ret(C(0, ty))
             return None
+        # ---- iteration over an array literal: concrete, element by element (finite, so no loop bound applies)
+        if path.endswith("IntoIterator for [T; N]>::into_iter") and args and args[0][0] == "arr":
+            return ret(("arriter", args[0][1], 0))
+        if path == "<I as std::iter::IntoIterator>::into_iter" and args and args[0][0] == "arriter":
+            return ret(args[0])
+        if path == "<std::array::IntoIter<T, N> as std::iter::Iterator>::next" and args and args[0][0] == "ref":
+            cur = self.read_loc(st, args[0][1], args[0][2])
+            if cur[0] == "arriter":
+                items, i = cur[1], cur[2]
+                if i < len(items):
+                    self.write_loc(st, args[0][1], args[0][2], ("arriter", items, i + 1))
+                    # the loop makes progress through a finite literal: do not count this round against the loop bound
+                    for kk in [kk for kk in st.visits if kk[0] == fr.depth]:
+                        del st.visits[kk]
+                    return ret(AGG("std::option::Option", "Some", (items[i],)))
+                return ret(AGG("std::option::Option", "None"))
         # ---- checked slice access: Some(..) exactly when the index / range is within the length
         if p == "std::slice::<impl [T]>::get" and len(args) == 2:
             base, ix = args[0], args[1]
